@@ -4,7 +4,7 @@ session configuration; End-of-RIB is recognised for exactly its family.
 
 Property theorems only.  The decoder is the model of
 `UpdateMessage::from_octets` and its accessors (Rc/Model/Update.lean, after the
-repairs F1, F2, F3, F22, F29, F30); `Observation` (Rc/Model/UpdateObs.lean) has
+repairs F1, F2, F3, F22, F22b, F29, F30); `Observation` (Rc/Model/UpdateObs.lean) has
 one field per accessor of the property's `observe_at` list.  The reference
 encoder `encUpdateT` (Rc/Model/UpdateObs.lean, written from RFC 4271 / 4760 /
 6793 / 7911 over the value composers of C04, C13 and C05) takes a content whose
@@ -208,23 +208,42 @@ theorem next_hop_reported (f : Fam) (nh rest : Bytes) (x : NextHop) (hn : nh.len
 
 /-- **eor_iff.** `is_eor()` answers `Some(family)` in exactly two situations:
 the 23-octet UPDATE (IPv4 unicast), or a message without conventional sections
-and without an MP_REACH_NLRI attribute whose MP_UNREACH_NLRI iterator – of the
-family the answer names – yields nothing. -/
+and without an MP_REACH_NLRI attribute whose (first) MP_UNREACH_NLRI – of the
+family the answer names, one of the 13 or not – holds no octet after AFI/SAFI. -/
 theorem eor_iff (m : Msg) (k : Nat × Nat) :
     m.isEor = .ok (some k) ↔
       (m.length = 23 ∧ k = (1, 1)) ∨
       (m.length ≠ 23 ∧ m.wd = [] ∧ m.ann = [] ∧ m.hasMpNlri = .ok false ∧
-        ∃ ty bs, m.mpWd = .ok (some (ty, bs)) ∧ (enumItems ty bs).1 = [] ∧ k = ty.afiSafi) := by
+        ∃ ty, m.mpWd = .ok (some (ty, [])) ∧ k = ty.afiSafi) := by
   apply Raw.eor_iff <;> assumption
 
-/-- **eor_no_nlri.** A message that carries NLRI – a non-empty conventional
-section, an MP_REACH_NLRI attribute, or an MP_UNREACH_NLRI whose iterator yields
-an item – is never reported as End-of-RIB. For every message, whatever its bytes. -/
+/-- **eor_no_nlri.** A message that carries NLRI is never reported as
+End-of-RIB, where "carries NLRI" is read off the OCTETS of the message: a
+non-empty conventional section (withdrawn routes or NLRI), an MP_REACH_NLRI
+attribute, or an MP_UNREACH_NLRI with at least one octet of withdrawn routes
+after AFI/SAFI – of ANY address family, also one routecore has no NLRI type for
+(whose iterator yields nothing whatever the attribute holds; before the repair
+F22b such a message was reported as End-of-RIB). For every message, whatever its
+bytes, under every configuration. -/
 theorem eor_no_nlri (m : Msg) (k : Nat × Nat)
     (h : m.wd ≠ [] ∨ m.ann ≠ [] ∨ m.hasMpNlri = .ok true ∨
-      ∃ ty bs, m.mpWd = .ok (some (ty, bs)) ∧ (enumItems ty bs).1 ≠ []) :
+      ∃ ty bs, m.mpWd = .ok (some (ty, bs)) ∧ bs ≠ []) :
     m.isEor ≠ .ok (some k) := by
   apply Raw.eor_no_nlri <;> assumption
+
+/-- the same with "carries NLRI" read off the iterator (the weaker form this
+clause had before): an MP_UNREACH_NLRI whose iterator yields an item -/
+theorem eor_no_nlri_items (m : Msg) (k : Nat × Nat) (ty : NlriTy) (bs : Bytes)
+    (hm : m.mpWd = .ok (some (ty, bs))) (hi : (enumItems ty bs).1 ≠ []) : m.isEor ≠ .ok (some k) := by
+  apply Raw.eor_no_nlri_items <;> assumption
+
+/-- the hypothesis of `eor_no_nlri` is met by the message that showed the defect
+(MP_UNREACH_NLRI of AFI 1 / SAFI 5, an unsupported family, withdrawing one /24):
+it is accepted, its withdrawn-routes field is `18 ..`, and it is no End-of-RIB -/
+example : (match parseUpdate ⟨true, []⟩ ((List.replicate 16 0xff) ++
+      [0x00, 0x1e, 0x02, 0x00, 0x00, 0x00, 0x07, 0x80, 0x0f, 0x04, 0x00, 0x01, 0x05, 0x18]) with
+    | .ok m => some (m.mpWd, m.isEor)
+    | _ => none) = some (.ok (some (.unsupported 1 5, [0x18])), .ok none) := by decide +kernel
 
 /-- **eor_marker_recognised.** The End-of-RIB marker of each of the 13 families
 (an UPDATE holding nothing but an MP_UNREACH_NLRI with AFI/SAFI and no
